@@ -11,7 +11,7 @@ from . import model
 from .model import X, show, loc, norm_path, walk
 from .cfg import Flow, Slicer, facts_of, strip_ref
 
-UNWRAP_LIKE = re.compile(r"(Option|Result)::(as_ref|as_mut|as_deref|as_deref_mut|unwrap|expect|clone|cloned|copied)$|Deref(Mut)?::deref(_mut)?$|Clone::clone$|AsRef::as_ref$|AsMut::as_mut$")
+UNWRAP_LIKE = re.compile(r"(Option|Result)::(as_ref|as_mut|as_deref|as_deref_mut|unwrap|expect|clone|cloned|copied|insert|get_or_insert)$|Deref(Mut)?::deref(_mut)?$|Clone::clone$|AsRef::as_ref$|AsMut::as_mut$")
 
 
 def canon_path(e, aliases=None):
@@ -522,6 +522,21 @@ class Interp:
                         return fin([spec.freeze(H)], r_)
             except Exception:
                 pass
+        # ---- `let s = self.slot.insert(Value {..})`: the same store as `self.slot = Some(Value {..})`, the result aliases the payload -----------
+        if re.search(r"option::Option::insert$|Option::insert$", cp) and len(t.args) == 2:
+            from .cfg import strip_ref as _sr
+            base = canon_path(_sr(x.operand(t.args[0])), al)
+            if base is not None:
+                val = x.operand(t.args[1])
+                for name, d in spec.vars.items():
+                    if re.fullmatch(d["path"], base) and d["kind"] == "option":
+                        old_ = H[name]
+                        H[name] = "Some"
+                        if spec.on_assign:
+                            spec.on_assign(name, old_, "Some", H, (f, t.sp, bb), self.report)
+                if val[0] == "aggr":
+                    self.assign_aggr(f, base, val, H, al, t.sp, bb)
+                return fin([spec.freeze(H)])
         if re.search(r"Try>?::branch$", cp.replace(" ", "")) or cp.endswith("::branch"):
             if isinstance(v0, str):
                 return fin([spec.freeze(H)], "Continue" if v0 in ("Ok", "Some") else "Break")
